@@ -140,7 +140,7 @@ def gen_schmidt(repo, out):
     result = r_expr(tail[2][0], {"norm_sq": "norm_sq", "kinv": "kinv"}, path, it)
     text = f"""(* GENERATED by tools/gen/schmidt.py from src/math/schmidt.rs (lines {it.span[0]}-{it.span[1]}) — do not edit; regenerated on every check run. *)
 From Coq Require Import Reals NArith List.
-From SpdVerif Require Import Model.FinSum Model.Schmidt.
+From SpdVerif Require Import Model.FinSum Model.Hom Model.Schmidt.
 Local Open Scope R_scope.
 
 (* let dim = …; if <cond> {{ return Err }} *)
@@ -164,6 +164,21 @@ Definition src_schmidt_number (svd : nat -> (nat -> nat -> R) -> option (nat -> 
     | Some sv => OkK (src_result dim sv)
     end
   else ErrNotSquare.
+"""
+    # the setup-level wrapper JointSpectrum::schmidt_number
+    wpath = os.path.join(repo, "src/jsa/joint_spectrum.rs")
+    wits = [i for i in parse_file(wpath) if i.kind == "fn" and i.name == "schmidt_number" and "JointSpectrum" in i.container]
+    if len(wits) != 1 or wits[0].error:
+        raise Untranslatable(wpath, 0, "JointSpectrum::schmidt_number not found exactly once")
+    out.span("jsa::JointSpectrum::schmidt_number", wits[0])
+    want = ("block", [], ("call", ("path", ["crate", "math", "schmidt_number"]),
+                          [("mcall", ("path", ["self"]), "jsa_range", [("mcall", ("path", ["range"]), "into", [])])]))
+    if wits[0].body != want:
+        _fail(wpath, wits[0], "JointSpectrum::schmidt_number is not crate::math::schmidt_number(self.jsa_range(range.into()))")
+    text += """
+(* JointSpectrum::schmidt_number(range) = crate::math::schmidt_number(self.jsa_range(range.into())); J is the setup's amplitude *)
+Definition src_setup_schmidt_number (svd : nat -> (nat -> nat -> R) -> option (nat -> R)) (J : R -> R -> cx R) (g : grid R) : outcome :=
+  src_schmidt_number svd (grid_len g) (tabulate J g).
 """
     out.write("SchmidtSrc.v", text)
 
